@@ -12,7 +12,7 @@ use serde::{Deserialize, Serialize};
 
 use crate::dsl::{Aborts, Builder, Cmd};
 
-#[derive(Serialize, Deserialize, Clone, PartialEq, Eq, Debug, Hash)]
+#[derive(Serialize, Deserialize, Clone, Debug)]
 pub struct VOp {
     pub o: [u32; 3],
     pub tag: u32,
@@ -20,6 +20,22 @@ pub struct VOp {
     /// counts the operation values that exist (C13: a request that is over lets go of its operation)
     #[serde(skip)]
     pub live: Live,
+}
+
+/// Two operations are EQUAL when they ask for the same thing (tag and value).  The stamp `o` is how the driver
+/// (like a shell holding two `Request`s) tells two equal operations apart; it takes no part in equality, so
+/// that programs can have several look-alike requests outstanding at once (C02).
+impl PartialEq for VOp {
+    fn eq(&self, other: &Self) -> bool {
+        self.tag == other.tag && self.val == other.val
+    }
+}
+impl Eq for VOp {}
+impl std::hash::Hash for VOp {
+    fn hash<H: std::hash::Hasher>(&self, h: &mut H) {
+        self.tag.hash(h);
+        self.val.hash(h);
+    }
 }
 
 static LIVE_OPS: std::sync::atomic::AtomicI64 = std::sync::atomic::AtomicI64::new(0);
